@@ -150,6 +150,49 @@ func (r *Report) finish(evdir string, writeEvidence bool) int {
 			}
 		}
 	}
+	// reachability: an assertion (or the return of a function) that no explored
+	// path reaches with a satisfiable path condition is proved vacuously. The
+	// instances of one point are aggregated over paths and split units.
+	coverKey := func(o *Obligation) string {
+		n := o.Name
+		if i := strings.LastIndex(n, "~"); i > 0 && !strings.Contains(n[i:], ":") {
+			n = n[:i]
+		}
+		if i := strings.Index(n, "#"); i > 0 {
+			f := n[:i]
+			if j := strings.Index(f, "["); j > 0 && strings.HasSuffix(f, "]") && !strings.Contains(f, "[\"") {
+				n = f[:j] + n[i:]
+			}
+		}
+		return n
+	}
+	coverSeen := map[string]*Obligation{}
+	coverLive := map[string]bool{}
+	var coverOrder []string
+	coverInstances := 0
+	for _, u := range r.Results {
+		for _, o := range u.Obligations {
+			if !o.Cover {
+				continue
+			}
+			coverInstances++
+			k := coverKey(o)
+			if coverSeen[k] == nil {
+				coverSeen[k] = o
+				coverOrder = append(coverOrder, k)
+			}
+			if o.Status != "failed" {
+				coverLive[k] = true
+			}
+		}
+	}
+	var unreachable []string
+	for _, k := range coverOrder {
+		if !coverLive[k] {
+			unreachable = append(unreachable, k)
+			emitViolation(k, "vacuous: no explored path reaches this point with a satisfiable path condition", coverSeen[k])
+		}
+	}
 	var splitVacuous []string
 	for _, u := range r.Results {
 		tot, dis, triv, _ := summarize(u.Obligations)
@@ -167,6 +210,10 @@ func (r *Report) finish(evdir string, writeEvidence bool) int {
 		}
 		assumedAll = append(assumedAll, u.Assumed...)
 		for _, o := range u.Obligations {
+			if o.Cover {
+				solverTime += o.Time
+				continue
+			}
 			if o.Vacuity {
 				if o.Status == "failed" && vacOK[o.Func] && strings.Contains(o.Name, "]#vacuity") {
 					splitVacuous = append(splitVacuous, o.Name)
@@ -323,6 +370,7 @@ func (r *Report) finish(evdir string, writeEvidence bool) int {
 				"vacuity_alarms":                        vacuity,
 				"split_values_excluded_by_precondition": splitVacuous,
 				"trivially_true_obligations":            trivial,
+				"reachability_checks":                   map[string]any{"points": len(coverOrder), "instances": coverInstances, "unreachable": unreachable, "what": "every contract assertion and the return of every function under contract must be reached by a path with a satisfiable path condition (guards against vacuous proofs)"},
 				"unmechanised_lemmas":                   unmechanised[r.Prop],
 				"bounded_checks":                        []string{},
 				"runtime_sweep":                         sweep,
